@@ -61,6 +61,9 @@ def impl(py):
             out["order"] = [n.data.data.get("_id") for n in tl.nodes]
         else:
             out["tex_dots"] = len(re.findall(r"\\draw node \[circle", txt))
+            # tick texts of the TikZ document: "node[anchor=...] {text};" inside the axis layer
+            ax = txt.split("% axis layer", 1)[1].split("% link layer", 1)[0] if "% axis layer" in txt else ""
+            out["tex_tick_texts"] = re.findall(r"node\[anchor=(?:north|south|east|west)\] \{(.*?)\};", ax)
             out["tex_ok"] = txt.rstrip().endswith("\\end{document}")
     return out
 
@@ -144,7 +147,7 @@ def _dt_dataset(rng, n, shape):
     elif shape == "year_end":
         base = datetime.datetime(y, 12, 30) + datetime.timedelta(hours=rng.randrange(0, 47))
     span_ms = rng.choice([1, 3, 7, 8, 9, 15, 120, 999, 1000, 5000, 61000, 3600000, 86400000, 40 * 86400000,
-                          400 * 86400000, 4000 * 86400000, 30000 * 86400000])
+                          400 * 86400000, 4000 * 86400000, 30000 * 86400000, 73000 * 86400000, 100000 * 86400000])
     base = base + datetime.timedelta(milliseconds=rng.randrange(0, 1000) if span_ms < 100000 else 0)
     items = []
     for i in range(n):
@@ -296,8 +299,8 @@ def make_big(rng, gsize=None, groups=None):
     """up to 1000 labels in well separated groups: a conflict cluster (the items
     one solver block can absorb) cannot span two groups, so it has at most
     `gsize` items -- labels and their stubs alike."""
-    gsize = gsize or rng.choice([60, 125, 150])
-    groups = groups or rng.choice([2, 4, 8 if gsize <= 125 else 6])
+    gsize = gsize or rng.choice([60, 125, 150, 180, 200, 200])   # the claim goes up to 200
+    groups = groups or rng.choice([2, 4, 8 if gsize <= 125 else (6 if gsize <= 150 else 3)])
     base = datetime.datetime(rng.randrange(1950, 2100), 1, 1)
     items = []
     for g in range(groups):
@@ -400,7 +403,11 @@ def matches_finding(f, case, failure):
 
 
 def nontrivial(case, io):
-    return len(case["py"]["data"]) > 1 or True
+    """more than one datum, or a degenerate domain (single datum / equal times)"""
+    if isinstance(io, dict) and "exc" in io:
+        return False
+    d = case["py"]["data"]
+    return len(d) > 1 or len(d) == 1
 
 
 EPS = 1e-9
@@ -565,6 +572,9 @@ def compare(case, io, mo):
                 got_tx[:j] + got_tx[j + 1:] == texts[:j] + texts[j + 1:]:
             raise core.Ambiguous()
         return "tick %d has text %r, the model has %r" % (j, x, w)
+    # ... and the TikZ document carries the same texts in the same order
+    if "tex_tick_texts" in io and list(io["tex_tick_texts"]) != got_tx:
+        return "TikZ tick texts %r differ from the SVG tick texts %r" % (io["tex_tick_texts"][:6], got_tx[:6])
     return None
 
 
@@ -622,8 +632,9 @@ EXPLANATION = ("C11_total (never raises, never out of fuel on the documented dom
                "alternatives of Scale/Band.v counted as ambiguous), the range, every dot position and every tick position "
                "(1e-9 relative + 1e-9 x axis length) and every tick TEXT (exactly; parsed from the SVG) with the model, and runs BOTH back-ends through the real layout engine and "
                "emitters, whose failures (any exception) the oracle reports.")
-LEVEL_TEXT = ("Machine-checked Coq theorems on a Gallina model of the axis pipeline of labella/timeline.py in an error monad (an "
-              "explicit failure at every raising Python operation on the path): for every non-empty dataset of numbers with a "
+LEVEL_TEXT = ("Machine-checked Coq theorems on a Gallina model of the axis pipeline of labella/timeline.py in an error monad (explicit "
+              "failures for empty data, mixed/wrong time types and out-of-range dates; the other raising operations of the export "
+              "path - option dicts, engine, emitters - are covered by the tie only): for every non-empty dataset of numbers with a "
               "LinearScale, or of date/datetime/time values of millisecond resolution in years 1900-2200 with the TimeScale, with "
               "or without an explicit domain, any direction, sizes, margins and tick display, the pipeline returns a value - it "
               "never raises and never runs out of fuel (C11_total; time-nice totality proved for that year range and every count); "
